@@ -27,17 +27,19 @@ inductive Kind
   deriving DecidableEq, Repr
 
 /-- `code`: `function_decl.code` (def), `body_decl.code` (block, page), `code.code` (call, `<% %>`, `${}`),
-    `expression` (`<%ns:def>`), `text` (control line).  `esc`: `Expression.escapes`.
+    `expression` (`<%ns:def>`), `text` (control line).  `esc`: `Expression.escapes`;
+    `escOff`: `Expression.escapes_lineno_offset` (line of the first filter relative to the `${`).
     `text`: `Comment.text` / `Text.content`. -/
 inductive Node where
-  | mk (kind : Kind) (lineno : Nat) (code esc text : Str) (children : List Node)
+  | mk (kind : Kind) (lineno : Nat) (code esc : Str) (escOff : Nat) (text : Str) (children : List Node)
 
-def Node.kind : Node → Kind | .mk k _ _ _ _ _ => k
-def Node.lineno : Node → Nat | .mk _ l _ _ _ _ => l
-def Node.code : Node → Str | .mk _ _ c _ _ _ => c
-def Node.esc : Node → Str | .mk _ _ _ e _ _ => e
-def Node.text : Node → Str | .mk _ _ _ _ t _ => t
-def Node.children : Node → List Node | .mk _ _ _ _ _ ch => ch
+def Node.kind : Node → Kind | .mk k _ _ _ _ _ _ => k
+def Node.lineno : Node → Nat | .mk _ l _ _ _ _ _ => l
+def Node.code : Node → Str | .mk _ _ c _ _ _ _ => c
+def Node.esc : Node → Str | .mk _ _ _ e _ _ _ => e
+def Node.escOff : Node → Nat | .mk _ _ _ _ o _ _ => o
+def Node.text : Node → Str | .mk _ _ _ _ _ t _ => t
+def Node.children : Node → List Node | .mk _ _ _ _ _ _ ch => ch
 
 /-- the branches of `extract_nodes` that assign `code` -/
 def Kind.pythonBearing : Kind → Bool
@@ -126,18 +128,20 @@ def pendingFor (tc : List (Nat × Str)) (lineno : Nat) : List (Nat × Str) :=
   | some (l, _) => if l + 1 < lineno then [] else tc
   | none => tc
 
-/-- the `Expression` branch: `code = node.code.code`; `if node.escapes: code = "(%s), (%s,)" % (code, node.escapes)` -/
-def wrapExpr (code esc : Str) : Str := '(' :: code ++ [')', ',', ' ', '('] ++ esc ++ [',', ')']
+/-- the `Expression` branch: `code = node.code.code`; if there are filters
+    `pad = "\n" * (node.escapes_lineno_offset - code.count("\n"))`, `code = "(%s), (%s%s,)" % (code, pad, node.escapes)` -/
+def wrapExpr (code esc : Str) (off : Nat) : Str :=
+  '(' :: code ++ [')', ',', ' ', '('] ++ List.replicate (off - countNL code) '\n' ++ esc ++ [',', ')']
 
 /-- the code string `extract_nodes` selects for a node (only the expression branch looks at the filter list) -/
-def selectCode (k : Kind) (code esc : Str) : Str :=
-  if k = .expr ∧ esc ≠ [] then wrapExpr code esc else code
+def selectCode (k : Kind) (code esc : Str) (off : Nat) : Str :=
+  if k = .expr ∧ esc ≠ [] then wrapExpr code esc off else code
 
 mutual
 /-- one iteration of the `for node in nodes` loop: the calls made (own call first, then those of the
     recursive `extract_nodes(child_nodes)`, which starts with a fresh state) and the state afterwards -/
 def runNode {α : Type} (tags : List Str) (proc : Proc α) : Node → St → List (Inv α) × St
-  | .mk k ln code0 esc text ch, st =>
+  | .mk k ln code0 esc off text ch, st =>
     if st.inTC && k == .text && isBlankStr text then ([], st)      -- "Ignore whitespace within translator comments"
     else match k with
     | .comment => ([], commentStep tags st ln text)
@@ -145,7 +149,7 @@ def runNode {α : Type} (tags : List Str) (proc : Proc α) : Node → St → Lis
     | .text => ([], st)
     | .other => ([], st)
     | k =>
-      let code := selectCode k code0 esc
+      let code := selectCode k code0 esc off
       let tc := pendingFor st.tc ln
       let ts := tc.map (·.2)
       let out := proc code ((ln : Int) - 1) ts
@@ -245,21 +249,23 @@ def extractLingua (finder : Finder) (cfgTags : Str) (nodes : List Node) : List M
 /-! ## specification side: where Python lives in a template -/
 
 /-- a construct in which Python is written: the node's line, its code, for an expression its filter list
-    (empty when there is none), whether it lies below a tag whose children `extract_nodes` never visits -/
+    (empty when there is none) and the line it starts on relative to the construct's line, whether it lies below a tag whose children `extract_nodes` never visits -/
 structure Site where
   lineno : Nat
   code : Str
   filter : Str
+  filterOff : Nat
   hidden : Bool
   deriving DecidableEq, Repr
 
 /-- the Python texts of a construct -/
 def Site.parts (s : Site) : List Str := if s.filter = [] then [s.code] else [s.code, s.filter]
 
-/-- specification of the one string that carries all Python texts of a construct:
-    the code itself, or `(code), (filters,)` -/
+/-- specification of the one string that carries all Python texts of a construct: the code itself, or
+    `(code), (filters,)` with the filter list moved down to the line it is written on -/
 def Site.text (s : Site) : Str :=
-  if s.filter = [] then s.code else '(' :: s.code ++ [')', ',', ' ', '('] ++ s.filter ++ [',', ')']
+  if s.filter = [] then s.code
+  else '(' :: s.code ++ [')', ',', ' ', '('] ++ List.replicate (s.filterOff - countNL s.code) '\n' ++ s.filter ++ [',', ')']
 
 /-- specification: the tags whose body is template content of its own (`<%def>`, `<%block>`, `<%call>`,
     `<%ns:def>`); the children of any other node (`<%namespace>` with inline defs, `<%text>`, …) count as
@@ -271,8 +277,8 @@ def Kind.container : Kind → Bool
 mutual
 /-- every Python-bearing construct among a node and **all** its descendants, in document order -/
 def sitesNode (hidden : Bool) : Node → List Site
-  | .mk k ln code esc _ ch =>
-    (if k.pythonBearing then [⟨ln, code, if k = .expr then esc else [], hidden⟩] else []) ++
+  | .mk k ln code esc off _ ch =>
+    (if k.pythonBearing then [⟨ln, code, if k = .expr then esc else [], off, hidden⟩] else []) ++
     sitesList (hidden || !k.container) ch
 def sitesList (hidden : Bool) : List Node → List Site
   | [] => []
@@ -285,7 +291,7 @@ def sites (nodes : List Node) : List Site := sitesList false nodes
 mutual
 /-- all nodes of the tree, document order -/
 def allNodesNode : Node → List Node
-  | .mk k ln c e t ch => .mk k ln c e t ch :: allNodesList ch
+  | .mk k ln c e o t ch => .mk k ln c e o t ch :: allNodesList ch
 def allNodesList : List Node → List Node
   | [] => []
   | n :: ns => allNodesNode n ++ allNodesList ns
